@@ -320,12 +320,72 @@ def rule_e(ctx):
     ctx.floor(R, 1)
 
 
+def rule_f(ctx):
+    R = "C09.f"
+    ctx.rule(R, "source and destination are not mixed up: wherever a parameter or attribute whose name carries the role suffix _src / _dst is "
+             "converted with a coordinate system (`.to_coordinate(cs)`, `.to_voxel(cs)`, `.to_voxel_center(cs)`, `.to(type, cs)`) the system carries "
+             "the same role; keyword arguments named *_src / *_dst receive values of the same role; role-carrying attributes are "
+             "assigned from parameters of the same role (role = API name suffix, never a local's spelling)")
+    m = ctx.model
+    mods = ["darsia.corrections.shape.affine", "darsia.corrections.shape.transformation", "darsia.corrections.shape.generalizedperspective",
+            "darsia.corrections.shape.rotation", "darsia.image.coordinatetransformation"]
+
+    def role(txt):
+        for r in ("src", "dst"):
+            if txt.endswith("_" + r) or txt.startswith(r + "_") or f"_{r}_" in txt:
+                return r
+        return None
+
+    n = 0
+    for mn in mods:
+        if mn not in m.modules:
+            continue
+        ctx.consult(mn)
+        mod = m.mod(mn)
+        for f in list(mod.funcs.values()) + [g for c in mod.classes.values() for g in c.methods.values()]:
+            params = set(f.params)
+
+            def api_role(e):
+                """Role of an expression that is a parameter, or an attribute chain ending in a role-carrying attribute of self / a parameter."""
+                b = e
+                while isinstance(b, ast.Call) and isinstance(b.func, ast.Attribute):
+                    b = b.func.value  # receiver of a method chain
+                if isinstance(b, ast.Name) and b.id in params:
+                    return role(b.id)
+                if isinstance(b, ast.Attribute) and isinstance(b.value, ast.Name) and (b.value.id == "self" or b.value.id in params):
+                    return role(b.attr)
+                return None
+
+            for c in ast.walk(f.node):
+                if isinstance(c, ast.Call) and isinstance(c.func, ast.Attribute) and c.func.attr in ("to_coordinate", "to_voxel", "to_voxel_center", "to") and c.args:
+                    cs = c.args[-1]
+                    r_recv, r_cs = api_role(c.func.value), api_role(cs)
+                    if r_recv and r_cs and "coordinatesystem" in norm(cs):
+                        n += 1
+                        ctx.instance(R)
+                        ctx.ob(R, f.qname, f"`{norm(c)[:70]}`: {r_recv} points are converted in the {r_recv} coordinate system", r_recv == r_cs,
+                               f"points of role {r_recv} are interpreted in the coordinate system of role {r_cs}", c)
+                if isinstance(c, ast.Call):
+                    for k in c.keywords:
+                        if k.arg and role(k.arg) and api_role(k.value):
+                            n += 1
+                            ctx.instance(R)
+                            ctx.ob(R, f.qname, f"keyword {k.arg}= receives a {role(k.arg)} value", role(k.arg) == api_role(k.value), f"{k.arg}={norm(k.value)}", c)
+                if isinstance(c, ast.Assign) and len(c.targets) == 1 and self_attr(c.targets[0]) and role(self_attr(c.targets[0])) and api_role(c.value) \
+                        and isinstance(c.value, (ast.Name, ast.Attribute)):
+                    n += 1
+                    ctx.instance(R)
+                    ctx.ob(R, f.qname, f"self.{self_attr(c.targets[0])} is assigned from a value of the same role", role(self_attr(c.targets[0])) == api_role(c.value), norm(c), c)
+    ctx.floor(R, 8)
+
+
 def run(ctx):
     rule_a(ctx)
     rule_b(ctx)
     rule_c(ctx)
     rule_d(ctx)
     rule_e(ctx)
+    rule_f(ctx)
     # the conversion of pulled-back points to source voxels must be floor based: shared rule C01.d
     from . import c01
 
